@@ -57,6 +57,10 @@ class Check:
             self.samples.append({"rule": rule, "instance": key, "detail": sample, "holds": bool(ok)})
         elif len([s for s in self.samples if s.get("rule") == rule]) < 2:
             self.samples.append({"rule": rule, "instance": key, "detail": msg or "holds", "holds": bool(ok)})
+        if not ok and any(w in msg for w in ("anchor lost", " not found", "not recognised")):
+            # the construct the rule is about is gone or renamed: fail closed (exit 2), do not claim a violation
+            self.anchor_errors.append("%s|%s: %s" % (rule, key, msg))
+            return
         if not ok:
             r["fail"] += 1
             self.reports.append({"rule": rule, "key": "%s|%s" % (rule, key), "msg": msg,
